@@ -17,7 +17,8 @@ THEOREMS = [_T + n for n in [
     "C17_width", "C17_placement", "C17_regular_axis_continues", "C17_step_known", "C17_arange_by_count",
     "C17_crop_bounds", "C17_extend_plan", "C17_extend_exact", "C17_width_keeps", "C17_crop_window",
     "C17_step_options", "C17_extend_closed", "C17_crop_closed", "C17_width_closed", "C17_step_closed",
-    "C17_history_on_lattice", "C17_extend_twice"]]
+    "C17_history_on_lattice", "C17_extend_twice", "C17_positional_binding", "C17_crop_positional", "C17_extend_positional",
+    "C17_width_positional", "C17_step_positional", "C17_session_pointwise", "C17_session_replay"]]
 LEVEL_TEXT = ("Lean theorems over the rational model of crop_dim (exactly the samples in the requested interval when no "
               "coordinate lies within eps of an open end), extend_dim (the whole result = filled samples on the lattice points "
               "below, the array itself, filled samples on the lattice points above; exactly the lattice points inside the "
@@ -31,22 +32,40 @@ LEVEL_TEXT = ("Lean theorems over the rational model of crop_dim (exactly the sa
               "over 1-3 dimensions); defaults (eps, tolerances, closedness) are re-extracted from the signatures on every run. "
               "Histories: the class of arrays the theorems speak about (non-empty piece of the lattice, step known) is proved "
               "closed under every operation, and chains of 2-4 calls, each on the real output of the previous one, are "
-              "compared call by call with the composed model.")
+              "compared call by call with the composed model. Calling conventions: Python's argument binding is part of the "
+              "model (bindArgs with the model's signature tables); for any current signature whose leading positional parameters "
+              "are the documented ones (re-extracted with inspect.signature on every run, 7 table obligations) every way of passing "
+              "the optional arguments - k leading ones positionally in the documented order, the rest by keyword - is proved to "
+              "bind each parameter to the value meant for it, and every such call style is run against the real code. Sessions "
+              "(consecutive independent calls in one process on fresh, reused-and-changed and caller-edited objects) are judged "
+              "call by call: the session model is proved pointwise and replay-stable.")
 LEVEL_NOTE = ("Unmodelled: binary64 rounding of numpy arange with a fractional step and of `end + k * step` (probed on the "
               "real code by the free-mode monitors with steps 0.01, 1/3, 0.004, 1/44100: length, data on coordinates, "
               "coordinates within 2^-40 of the lattice); xarray sel / reindex are modelled as label slice / label lookup. "
               "Requested open ends within eps of a coordinate are excluded by hypothesis, as in the property. "
               "Symbolic ties cover the arithmetic before the hand-over to xarray; crop_dim_width / extend_dim_width (integer "
               "index arithmetic) and get_dim_step (numpy reductions) are tied by generator-bounded correspondence, the "
-              "defaults by a table obligation.")
+              "defaults and the positional order of the signatures by table obligations. Sessions, construction paths (11 ways "
+              "of building the array, 3 dimension names, 4 layouts, float32 / int64 axes, numpy scalar arguments), option "
+              "products, tolerance-sized offsets around every comparison and size thresholds (16 .. 1025 samples) are "
+              "generator-bounded correspondence on dyadic axes; every lattice point of a few non-dyadic axes is swept by the "
+              "free-mode monitors.")
 TECHNIQUE = ("Lean 4 proof over model; symbolic-trace equality obligations for the crop_dim / extend_dim kernels; exact "
              "differential correspondence on dyadic axes; free-mode monitors for arange rounding")
 RULE = ("dyadic axes of 1-40 points x every width 1..2n+3 x three positions x step attribute present/absent; crop and "
         "extend requests on, between and beyond coordinates with all closedness flags; cells with NaN / +-inf / fill-equal "
         "values over 1-d, 2-d and 3-d layouts; histories of 2-4 crop_dim / extend_dim / adjust_dim_width calls on "
-        "the previous output; get_dim_step options; decimal-step monitors; "
+        "the previous output; get_dim_step options; decimal-step monitors; every public function x every number of "
+        "leading optional arguments passed positionally in the documented order x every flag / option combination; "
+        "11 construction paths x 3 dimension names x 4 layouts; pairwise option products; offsets of 2^-20 .. 2^-40 "
+        "relative size around every comparison at magnitudes 2^-7 .. 2^20; axis lengths / widths 16 .. 1025; sessions "
+        "of 3-5 independent calls (x, a neighbour of x, x again) with reused-and-changed arrays (in place, shallow / "
+        "deep copy, assign_coords), poisoned results, arguments snapshotted (values, coordinates, attributes) and "
+        "earlier results read again; every coordinate / lattice point of non-dyadic axes (steps 0.01, 0.1, 1/3, 0.29); "
         "non-trivial = the implementation returned an array; distinct = distinct (operation, input)")
-TRUSTED = ["xarray sel / reindex, pandas slice_indexer, numpy arange / diff / mean / isclose (modelled, validated by correspondence)",
+TRUSTED = ["the documented parameter order written down in harness/c17_calls.py DOCUMENTED (it must agree with the model's "
+           "tables: any disagreement shows as a mismatch on the unchanged tree)",
+           "xarray sel / reindex, pandas slice_indexer, numpy arange / diff / mean / isclose (modelled, validated by correspondence)",
            "symbolic tracer stubs of an xarray.DataArray with one range dimension (harness/props/c17.py _kernel_stubs)"]
 ASSUMPTIONS = ["binary64 arithmetic is exact on the dyadic axes used for the exact comparisons",
                "axes strictly increasing with unique coordinates, step > 0 (the property's quantifier: regular axes); the "
@@ -56,6 +75,13 @@ ASSUMPTIONS = ["binary64 arithmetic is exact on the dyadic axes used for the exa
 NOT_COMPARED = ["error messages (only the error class)", "`start` / `stop` attributes written by extend_dim",
                 "dtype of the data (an integer array may come back as float; cell values are compared)",
                 "extension of a one-point axis that has no step attribute (the estimated step is NaN)",
+                "adjust_dim_range (not part of the property; its signature is not in the table obligation either)",
+                "whether a result is a view or a copy of its argument (crop_dim returns xarray views, adjust_dim_width with "
+                "the current width returns its argument): a result is read again after later calls only while the caller "
+                "has not written into its argument or into a result of the same argument",
+                "auxiliary (non-index) coordinates, the array's name and attributes on the result",
+                "eps passed as numpy.float32 (end - eps would be float32 arithmetic); calls that Python itself rejects "
+                "(too many positional arguments, a parameter given twice)",
                 "non-dyadic axes: only length, placement of the data, kept coordinates and lattice continuation within "
                 "tolerance are checked on the real output (the rational model cannot exhibit arange rounding)"]
 
@@ -434,8 +460,14 @@ def _s_modify(args, inp, how):
         arr = arr.copy(deep=False)
     if how == "assign_coords":
         arr = arr.assign_coords({dim: xr.Variable((dim,), c, attrs=attrs)}).copy(data=np.asarray(fresh.transpose(*arr.dims).values))
+    elif how == "inplace" and np.asarray(arr.coords[dim].values).tobytes() == c.tobytes() \
+            and arr.coords[dim].dtype == c.dtype:
+        live = arr.coords[dim].attrs          # the same index object; only its attributes (the step) change
+        live.pop("step", None)
+        live.update(attrs)
     else:
         arr.coords[dim] = xr.Variable((dim,), c, attrs=attrs)
+    if how != "assign_coords":
         try:
             arr.data[...] = np.asarray(fresh.transpose(*arr.dims).values)     # the same buffer, new content
         except ValueError:       # a read-only buffer: replace it
@@ -957,7 +989,7 @@ def _crop_cases(ctx, n_axes):
             b = _base(rng, coords, step)
             b.update({"start": rat(s) if rng.random() < 0.85 else None, "stop": rat(e) if rng.random() < 0.85 else None,
                       "lc": rng.random() < 0.5, "rc": rng.random() < 0.5,
-                      "eps": rng.choice([None, None, rat(Fraction(1, 1 << 20)), rat(step / 8)])})
+                      "eps": rng.choice([None, None, None, rat(Fraction(1, 1 << 20)), rat(step / 8), rat(step / 2)])})
             if rng.random() < 0.1:      # the closedness defaults [start, stop)
                 b["lc"] = b["rc"] = None
             yield b
@@ -1006,7 +1038,7 @@ def _extend_cases(ctx, n_axes):
                         b = _base(rng, coords, step, fill=fill)
                         b.update({"start": rat(coords[0] - (kl + fo) * step), "stop": rat(coords[-1] + (kr + go) * step),
                                   "fill": fill, "lc": lc, "rc": rc,
-                                  "eps": rng.choice([None, None, rat(Fraction(1, 1 << 20)), rat(step / 8)])})
+                                  "eps": rng.choice([None, None, None, rat(Fraction(1, 1 << 20)), rat(step / 8), rat(step / 2)])})
                         if rng.random() < 0.1:
                             b["start"] = None
                         if rng.random() < 0.1:
@@ -1567,7 +1599,7 @@ def _session_variants(x, rng):
         v(lc=not x["lc"] if x.get("lc") is not None else False)
         v(rc=not x["rc"] if x.get("rc") is not None else True)
         v(lc=None, rc=None, eps=None)
-        v(eps=rat(d / 8) if x.get("eps") is None else None)
+        v(eps=rat(d / rng.choice([2, 8])) if x.get("eps") is None else None)
     if fn in ("extend_dim", "width"):
         v(fill=rng.choice([f_ for f_ in FILLS if f_ != x.get("fill")]))
         v(fill=None)
